@@ -121,6 +121,14 @@ fn with_addr(c: &Case, vc: u8, proto: ppp::v2::Protocol, addr: ppp::v2::Addresse
                     (SocketAddr::V6(SocketAddrV6::new(a.source_address, a.source_port, 7, scope)), SocketAddr::V6(SocketAddrV6::new(a.destination_address, a.destination_port, 0, scope + (c.proto as u32 % 2)))),
                 )
             }
+            // no address: a pair of sockets of different families (one of them IPv4-mapped half of the time) is how a caller
+            // with nothing but two socket addresses expresses "unspecified"
+            ppp::v2::Addresses::Unspecified => {
+                let v4 = SocketAddr::V4(SocketAddrV4::new(std::net::Ipv4Addr::new(192, 0, 2, 1 + c.proto), 1000 + c.tlvs.len() as u16));
+                let ip6 = if c.tlvs.len() % 2 == 0 { std::net::Ipv4Addr::new(198, 51, 100, 7).to_ipv6_mapped() } else { std::net::Ipv6Addr::new(0x2001, 0xdb8, 0, 0, 0, 0, 0, 2) };
+                let v6 = SocketAddr::V6(SocketAddrV6::new(ip6, 443, 0, scope));
+                return if c.cmd == 0 { Builder::with_addresses(vc, proto, (v4, v6)) } else { Builder::with_addresses(vc, proto, (v6, v4)) };
+            }
             _ => {}
         }
     }
@@ -460,7 +468,7 @@ pub fn run(r: &mut Runner) -> &'static str {
                 return None;
             }
             for (named, kind) in &kinds {
-                for seed in [len as u32 * 2 + 1, 0, crate::engine::SEED_ONES, crate::engine::SEED_ASCII, crate::engine::SEED_CRLF] {
+                for seed in [len as u32 * 2 + 1, 0, crate::engine::SEED_ONES, crate::engine::SEED_ASCII, crate::engine::SEED_CRLF, crate::engine::SEED_COUNTED] {
                     idx += 1;
                     if idx % nshards != shard {
                         continue;
@@ -478,7 +486,7 @@ pub fn run(r: &mut Runner) -> &'static str {
         }
         None
     };
-    let gspace = format!("12 registered types + 10 raw kind bytes x every value length 0..={} x 5 content classes (random, zeros, 0xFF, ASCII, signature-like); family, command, transport and build route rotate", top);
+    let gspace = format!("12 registered types + 10 raw kind bytes x every value length 0..={} x 6 content classes (random, zeros, 0xFF, ASCII, signature-like, counted string); family, command, transport and build route rotate", top);
     r.bulk("c07.grid", Some(&gspace), &grid, &judge);
     "exploration"
 }
